@@ -423,7 +423,31 @@ class ReverseModel(object):
         return {(wf, tuple(sorted(state.items())), output)}
 
 
+def _without_pause(prog):
+    """A `pause` command only delays the dispatch of what follows it (and of
+    the successors of tasks finishing meanwhile) until an operator resumes:
+    with a harness that always resumes, every run of the program is a run of
+    the same program without the `pause` entries under some event order, and
+    the model explores all orders."""
+    import copy
+    if not any(e.get('to') == 'pause'
+               for t in prog['tasks'].values()
+               for c in ('on-success', 'on-error', 'on-complete')
+               for e in t.get(c) or []) and not any(
+            e.get('to') == 'pause'
+            for c in ('on-success', 'on-error', 'on-complete')
+            for e in ((prog.get('defaults') or {}).get(c) or [])):
+        return prog
+    p = copy.deepcopy(prog)
+    for t in list(p['tasks'].values()) + [p.get('defaults') or {}]:
+        for c in ('on-success', 'on-error', 'on-complete'):
+            if t.get(c):
+                t[c] = [e for e in t[c] if e.get('to') != 'pause']
+    return p
+
+
 def model_for(prog, wf_input, outcomes, **kw):
+    prog = _without_pause(prog)
     if prog['type'] == 'reverse':
         return ReverseModel(prog, wf_input, outcomes)
     return DirectModel(prog, wf_input, outcomes, **kw)
